@@ -254,7 +254,7 @@ func c16Run(c c16Case) (verdict string, inconcl string) {
 		cancel()
 		return "", "constructor: " + err.Error()
 	}
-	deadline := time.Now().Add(30 * time.Second)
+	deadline := time.Now().Add(120 * time.Second)
 	var idleSince time.Time
 	for {
 		select {
@@ -290,7 +290,7 @@ func c16Run(c c16Case) (verdict string, inconcl string) {
 			idleSince = time.Time{}
 		}
 		if time.Now().After(deadline) {
-			inconcl = "node did not reach quiescence within 30s"
+			inconcl = "node did not reach quiescence within 120s"
 			break
 		}
 		time.Sleep(500 * time.Microsecond)
@@ -298,8 +298,8 @@ func c16Run(c c16Case) (verdict string, inconcl string) {
 	cancel()
 	select {
 	case <-done:
-	case <-time.After(10 * time.Second):
-		inconcl = "syncer did not stop within 10s of cancellation"
+	case <-time.After(90 * time.Second):
+		inconcl = "syncer did not stop within 90s of cancellation"
 	}
 	return
 }
